@@ -31,6 +31,8 @@ def check_program(rep, wd, prog: SeqProgram, K, want_reset_pairs=False, ref_cls=
     st.accepted += 1
     try:
         ref = ref_cls(prog.source, prog.proc, prog.objs)
+        if prog.meta.get("step_cond"):
+            ref.step_cond = prog.meta["step_cond"]
     except RUnsupported as e:
         return {"status": "outside", "why": str(e)}
     try:
